@@ -852,6 +852,10 @@ func caseTSDPool(ks *kase) {
 	}
 	ks.k.eval(1)
 	ks.k.count("pool_histories", 1)
+	if len(history) > 0 {
+		ks.k.sample(map[string]interface{}{"family": "tsdpool", "case_idx": ks.idx, "pool_operations": nOps,
+			"blocks_encoded_and_verified": len(history), "last_block": history[len(history)-1].b.witness()})
+	}
 	ks.k.nontrivial(ks.ctx, h)
 }
 
